@@ -672,7 +672,7 @@ def gen_c03_spec(rng: random.Random, maxn: int = 40) -> Dict[str, Any]:
         post = [h for h in mw if h != "pre_execute"]
         if post and spec["cfg"]["W"] is None and rng.random() < 0.5:
             # a sibling middleware whose hooks of the same kind are slow: they belong to the processing of the message
-            slow = {h: {"async": True, "lat": rng.choice([0.3, 0.3, 1.0]), "style": rng.choice(["async", "async", "awaitable"])} for h in post}
+            slow = {h: {"async": True, "lat": rng.choice([0.3, 0.3, 1.0]), "style": rng.choice(["async", "async", "awaitable", "task"])} for h in post}
             spec["mws"] = [slow, mw] if rng.random() < 0.7 else [mw, slow]
     if not A or A < 0:
         spec["cfg"]["threads"] = len(msgs) + 2  # no limit: every sync function may hold a thread at the same time
@@ -759,7 +759,11 @@ def gen_c04_spec(rng: random.Random, A: int, P: int) -> Dict[str, Any]:
         msgs.append({"at": round(t, 6), "task": "t_async", "ackable": True,
                      "ack_kind": rng.choice(["sync", "async", "async", "awaitable", "task"]),
                      "ack_lat": rng.choice([0, 0.05, 0.4]), "beh": {"dur": dur, "out": rng.choice(["ok", "ok", "raise:ValueError"])}})
-        if rng.random() < 0.15:
+        if rng.random() < 0.06:
+            # a timeout label that is not a number: the message fails, and its function must not be running anywhere
+            msgs[-1]["timeout_raw"] = rng.choice(["soon", "30s", ""])
+            msgs[-1]["beh"]["dur"] = [rng.choice([2.0, 5.0, "never"])]
+        elif rng.random() < 0.15:
             # a timeout label that fires: the slot must stay taken until the function has really stopped
             msgs[-1]["timeout"] = rng.choice([0.05, 0.2])
             msgs[-1]["beh"]["dur"] = [rng.choice([1.0, "never"])]
@@ -787,8 +791,12 @@ def gen_c04_spec(rng: random.Random, A: int, P: int) -> Dict[str, Any]:
     if rng.random() < 0.25:
         # hostile extra: some messages hit a raising hook or a failing backend (the bound must survive that)
         toks = [f"m{i}" for i in range(len(msgs)) if rng.random() < 0.3]
-        h = rng.choice(["pre_execute", "post_execute", "post_save"])
+        h = rng.choice(["pre_execute", "post_execute", "post_save", "on_error"])
         spec["mws"] = [{h: {"async": rng.random() < 0.5, "raise": toks}}]
+        if h != "pre_execute" and rng.random() < 0.5:
+            # a sibling middleware whose hook of the same kind is slow: it still belongs to the message when the other raises
+            slow = {h: {"async": True, "lat": rng.choice([0.3, 1.0, 2.0]), "style": rng.choice(["async", "async", "awaitable", "task"])}}
+            spec["mws"] = [slow, spec["mws"][0]] if rng.random() < 0.7 else [spec["mws"][0], slow]
         spec["backend"]["fail"] = [f"m{i}" for i in range(len(msgs)) if rng.random() < 0.1]
     elif rng.random() < 0.2:
         # slow (well-behaved) middleware hooks: the message is being processed while they run
